@@ -121,7 +121,7 @@ def oracle_c01(cfgl, lines):
             return None           # the script itself blocks the flushers (an artefact of shrinking): not a history of the claim
         if r in ("PANIC", "HANG"):
             return (n, f"{name}: {r}")
-        if name in ("ins", "sins"):
+        if name in ("ins", "sins", "sinskeep"):
             k, v = int(kv["k"]), int(kv["ver"])
             truth[k] = v; ever.setdefault(k, set()).add(v); cleared.discard(k)
             # (the storage writer's force() skips only the writer's own check: the entry still passes store.enqueue's filter)
